@@ -276,6 +276,18 @@ func VHPubUnsub() {
 		vAssert(c10count(s.logs[0], ev2) == 1 && c10count(s.logs[1], ev2) == 1, "the original publisher still reaches every subscriber")
 		none := s.ps.WithOnly(foreign)
 		none.PubSync(ev1)
+		// a WithOnly for a channel that is not (or no longer) subscribed must leave the parent fully
+		// usable: subscribing, unsubscribing and publishing still work afterwards
+		vAssert(s.ps.Unsub(s.subs[1]) == nil, "Unsub still works after WithOnly(unknown channel)")
+		gone := s.ps.WithOnly(s.subs[1])
+		gone.PubSync(ev1)
+		extra := s.ps.SubBuf(1)
+		s.ps.PubSync(ev1)
+		x, ok := <-extra
+		vAssert(ok && x == ev1, "a subscription made after WithOnly(removed channel) receives events")
+		vWait()
+		vAssert(s.closed[1] && c10count(s.logs[1], ev1) == 0, "WithOnly(removed channel) delivers nothing")
+		vAssert(c10count(s.logs[0], ev1) == 2, "the remaining subscriber got both publishes")
 		vCover("unsub: withonly")
 	}
 }
